@@ -917,6 +917,17 @@ Definition count_out (o : poutcome) (l : list poutcome) : N :=
   N.of_nat (length (filter (fun x => match x, o with
                                      | Dispatched, Dispatched | Dropped, Dropped | Blocked, Blocked
                                      | Finished, Finished | Idle, Idle => true | _, _ => false end) l)).
+(* occupancy and outcome after every step of an arbitrary arrive / finish history: what the harness reads off the real
+   channel (len(chan)) after each step.  outcome codes: 1 dispatched, 2 dropped, 3 blocked, 4 finished, 5 idle *)
+Definition outcome_code (o : poutcome) : N :=
+  match o with Dispatched => 1 | Dropped => 2 | Blocked => 3 | Finished => 4 | Idle => 5 end.
+Fixpoint pool_trace (blocking : bool) (cap : N) (s : pstate) (evs : list pevent) : list tok :=
+  match evs with
+  | [] => []
+  | e :: r => let '(s1, o) := pool_step blocking cap s e in
+              TN (ps_busy s1) :: TN (outcome_code o) :: pool_trace blocking cap s1 r
+  end.
+Definition events_of (b : bytes) : list pevent := map (fun x => if x =? 70 then Finish else Arrive) b.
 (* the harness scenario: n frames while every worker is held, then all workers are released *)
 Definition pool_burst (cap n : N) : list tok :=
   let '(s1, os1) := pool_run false cap pool0 (repeat Arrive (N.to_nat n)) in
@@ -1011,6 +1022,7 @@ Definition run (v : variant) (entry : N) (na : list N) (ba : list bytes) : resul
   if entry =? 51 then (rmap pkt4_toks (dhcp_parse b)) else
   if entry =? 52 then (rmap msg4_toks (parse_message4 b)) else
   if entry =? 70 then Ok (pool_burst (arg 0 na) (arg 1 na)) else
+  if entry =? 71 then Ok (pool_trace false (arg 0 na) pool0 (events_of b)) else
   if entry =? 61 then rmap (fun x => [tbool x]) (is_authentic_reply b (barg 1 ba) (barg 2 ba)) else
   if entry =? 62 then rmap (fun x => [tbool x]) (validate_request_auth b (barg 1 ba)) else
   if entry =? 63 then rmap (fun x => [tbool x]) (validate_message_auth b (barg 1 ba)) else
